@@ -331,14 +331,14 @@ Qed.
    parameters hold values of the signature's labels, the declared C return type of that variant holds its value *)
 Theorem function_result_covers :
   forall C fe cur name params rets sg fe1 p1 final d rho,
-    parse_function_core C fe cur name (mk_fsrc params None (ret_body rets)) (Some sg) = Some (fe1, p1, final) ->
+    parse_function_static C fe cur name (mk_fsrc params None (ret_body rets)) (Some sg) = Some (fe1, p1, final) ->
     ret_guard (fn_table fe name) (fe_alias fe) C (fn_tenv cur params sg) rets = true ->
     env_sound (fn_tenv cur params sg) rho ->
     sig_lookup final (get_or [] (tlookup name (fe_defs fe1))) = Some d ->
     forall g e v, In (g, e) rets -> peval rho e = Ok v -> crepr (fd_ret d) v.
 Proof.
   intros C fe cur name params rets sg fe1 p1 final d rho Hp Hg Hes Hd g e v Hin Hev.
-  unfold parse_function_core in Hp. cbn [fs_params fs_body fs_ret] in Hp.
+  unfold parse_function_static in Hp. cbn [fs_params fs_body fs_ret] in Hp.
   destruct (negb (length sg =? length params)%nat); [discriminate|].
   fold (fn_table fe name) in Hp. fold (fn_tenv cur params sg) in Hp.
   set (F0 := fn_table fe name) in *. set (G := fn_tenv cur params sg) in *.
@@ -378,7 +378,7 @@ Qed.
 
 Lemma debounce_nonvacuous :
   exists fe1 p1 d,
-    parse_function_core None fenv0 empty_ctx z_f (mk_fsrc debounce_params None (ret_body debounce_rets)) (Some [TInt; TInt])
+    parse_function_static None fenv0 empty_ctx z_f (mk_fsrc debounce_params None (ret_body debounce_rets)) (Some [TInt; TInt])
       = Some (fe1, p1, [TInt; TInt]) /\
     ret_guard (fn_table fenv0 z_f) (fe_alias fenv0) None (fn_tenv empty_ctx debounce_params [TInt; TInt]) debounce_rets = true /\
     env_sound (fn_tenv empty_ctx debounce_params [TInt; TInt]) debounce_rho /\
